@@ -486,7 +486,7 @@ last reader of `v` (filters), the group of `o` is still `{o}` and `v` is the las
 theorem fuse_produces_safe (cfg : UCfg) (fc : FCfg) (g : Graph) (comp : Compiled) (hwf : g.WF = true)
     (hfilters : fc.checkLater = true ∧ fc.checkBlock = true) (h : compile cfg fc g = .ok comp) :
     fuseSafe (fun v => comp.grp[v]?.getD v) comp.st.program = true := by
-  obtain ⟨hg, hnd, hblk⟩ := compile_fuse_facts cfg fc g comp hwf h
+  obtain ⟨hg, hnd, hblk, _⟩ := compile_fuse_facts cfg fc g comp hwf h
   rw [hg]
   exact fuseAll_safe fc hfilters.1 hfilters.2 comp.st comp.nblocks hnd (compile_closed cfg fc g comp hwf h) hblk
 
